@@ -89,3 +89,70 @@ pub fn c10_native_logical_and_optimum() {
     }
     println!("c10_native_logical_and_optimum: {} cases checked", cases);
 }
+
+// ------------------------------------------------------------------------------------------------------------------
+// BOUNDED STAND-IN (not a proof) for the whole-loop clauses: "an iteration-bounded loop makes exactly n passes, tests its
+// condition n+1 times and reports progress value/n", "every-n is true exactly on multiples of n", "random-chance fires with the
+// configured probability".  (The per-call contracts of LessThanN/EveryN/Loop are Verus units; the VALUE of the progress is a
+// float division Verus leaves uninterpreted, and RandomChance draws from the State's generator.)  Native runs, real code.
+use crate::{
+    conditions::{EveryN, LessThanN, RandomChance},
+    configuration::Configuration,
+    lens::ValueOf,
+    state::{common::{Iterations, Progress}, random::Random},
+};
+
+// @native-harness
+pub fn c10_native_loops_and_chance() {
+    let mut cases = 0u64;
+    for n in 0..=7u32 {
+        for m in 1..=4u32 {
+            let tests = Arc::new(AtomicUsize::new(0));
+            let passes = Arc::new(AtomicUsize::new(0));
+            let trace: Arc<std::sync::Mutex<Vec<(u32, f64, bool)>>> = Arc::new(std::sync::Mutex::new(Vec::new()));
+            let (p2, t2) = (passes.clone(), trace.clone());
+            let cond = And::new(vec![LessThanN::iterations(n), Box::new(Scripted { value: true, count: tests.clone() }) as Box<dyn Condition<P0>>]);
+            let every = EveryN::<ValueOf<Iterations>>::iterations::<P0>(m);
+            let config = Configuration::<P0>::builder()
+                .while_(cond, move |b| {
+                    let (p2, t2, every) = (p2.clone(), t2.clone(), every.clone());
+                    b.debug(move |problem, state| {
+                        p2.fetch_add(1, Ordering::SeqCst);
+                        let it = state.iterations();
+                        let pr = state.get_value::<Progress<ValueOf<Iterations>>>();
+                        let ev = every.evaluate(problem, state).unwrap();
+                        t2.lock().unwrap().push((it, pr, ev));
+                    })
+                })
+                .build();
+            let state = config.optimize_with(&P0, |_| Ok(())).expect("a bounded loop must not fail");
+            let fail = |why: String| -> ! { eprintln!("COUNTEREXAMPLE loop bound n={n} every-n m={m}: {why}"); panic!("loop / condition violates C10") };
+            if passes.load(Ordering::SeqCst) != n as usize { fail(format!("{} passes instead of exactly n", passes.load(Ordering::SeqCst))) }
+            if tests.load(Ordering::SeqCst) != n as usize + 1 { fail(format!("the condition was tested {} times instead of n+1", tests.load(Ordering::SeqCst))) }
+            if state.iterations() != n { fail(format!("{} completed passes counted", state.iterations())) }
+            let end = state.get_value::<Progress<ValueOf<Iterations>>>();
+            if n > 0 && end != 1.0 { fail(format!("progress after the loop is {end}, expected n/n = 1")) }
+            for (k, (it, pr, ev)) in trace.lock().unwrap().iter().enumerate() {
+                if *it != k as u32 { fail(format!("pass {k} saw iteration count {it}")) }
+                if *pr != k as f64 / n as f64 { fail(format!("progress in pass {k} is {pr}, expected {k}/{n}")) }
+                if *ev != (k as u32 % m == 0) { fail(format!("every-{m} evaluated to {ev} at iteration {k}")) }
+            }
+            cases += 1;
+        }
+    }
+    // RandomChance: p = 0 never, p = 1 always, otherwise the observed frequency over 20000 draws is within 0.02 of p
+    for (p, seed) in [(0.0, 1u64), (1.0, 2), (0.1, 3), (0.3, 4), (0.5, 5), (0.9, 6)] {
+        let c = RandomChance::new::<P0>(p);
+        let mut state: State<P0> = State::new();
+        state.insert(Random::new(seed));
+        let draws = 20000;
+        let hits = (0..draws).filter(|_| c.evaluate(&P0, &mut state).unwrap()).count();
+        let freq = hits as f64 / draws as f64;
+        if (p == 0.0 && hits != 0) || (p == 1.0 && hits != draws) || (freq - p).abs() > 0.02 {
+            eprintln!("COUNTEREXAMPLE RandomChance p={p} seed={seed}: fired {hits} times in {draws} evaluations");
+            panic!("random-chance does not fire with the configured probability");
+        }
+        cases += 1;
+    }
+    println!("c10_native_loops_and_chance: {} cases checked", cases);
+}
